@@ -37,6 +37,11 @@ DEFAULT_PROFILE = {
     "p_shared_stack": 0.6,
     "entry_w": {"tree": 9, "hms": 1, "minimize": 0},
     "p_manual_steps": 0.12,
+    "p_bounds_form": 0.08,  # read-only non-contiguous view / Fortran-ordered bounds array
+    "p_np_ints": 0.08,  # pop_size, generations, limits as numpy.int64
+    "p_np_return": 0.15,  # the objective returns numpy.float64 (what np.sum(x ** 2) gives)
+    "p_inf_objective": 0.06,  # infinite (never NaN) objective values: death-penalty wall / infinitely good pocket
+    "p_bounds_int": 0.1,  # bounds given as an integer array, as in the README
     "p_long_run": 0.04,  # 40-80 metaepochs with small populations: archives wrap round, CMA-ES terminates itself, ...  # entry "tree" replaced by a manual `while not gsc(tree): tree.run_step()` loop
     "metaepochs": [2, 12],
     "level_limit": [1, 4],
@@ -100,7 +105,7 @@ def gen_box(rng, dim, prof):
     if kind == "huge":
         return [[-1e6, 1e6] for _ in range(dim)], kind
     if kind == "far":
-        c = rng.choice([1000.0, -5000.0, 123456.0])
+        c = rng.choice([1000.0, -5000.0, 123456.0, 3.0e7])
         return [[c, c + rng.choice([1.0, 3.0, 10.0])] for _ in range(dim)], kind
     raise ValueError(kind)
 
@@ -395,6 +400,36 @@ def gen_plan(seed, prof=None, prop="GEN"):
         f = plan.get("faults", {})
         if f.get("stop_at_consult") is not None:
             f["stop_at_consult"] = f["stop_at_consult"] * 8
+    r3 = random.Random(seed ^ 0xB0B0)
+    if r3.random() < prof.get("p_bounds_int", 0.0) and all(float(v).is_integer() for b in plan["box"] for v in b):
+        plan["bounds_int"] = True  # np.array([(-5, 5)] * 2), as in the README: an integer array
+    if r3.random() < prof.get("p_inf_objective", 0.0) and "levels" in plan and not plan.get("stack_objectives") \
+            and plan["objective"]["kind"] not in ("nanregion", "clipint"):
+        o = plan["objective"]
+        box = plan["box"]
+        cen = o.get("center") or [(lo + hi) / 2.0 for lo, hi in box]
+        new = {"sign": o.get("sign", 1.0), "center": cen, "scale": 1.0, "offset": o.get("offset", 0.0)}
+        if r3.random() < 0.75:
+            lo0, hi0 = box[0]
+            new["kind"] = "infwall"
+            # the optimum stays feasible; sometimes it lies right next to the wall
+            new["inf_below"] = min(lo0 + (hi0 - lo0) * r3.choice([0.1, 0.3, 0.45]), cen[0] - (hi0 - lo0) * r3.choice([0.0, 0.02, 0.2]))
+        else:
+            new["kind"] = "infpocket"
+            new["pocket"] = [lo + (hi - lo) * r3.choice([0.3, 0.6, 0.8]) for lo, hi in box]
+            new["pocket_r"] = min(hi - lo for lo, hi in box) * r3.choice([0.02, 0.08, 0.2])
+        plan["objective"] = new
+        plan["inf_objective"] = True
+        if plan["gsc"]["kind"] == "precision":
+            plan["gsc"] = {"kind": "metaepoch_limit", "limit": 6}
+    if r3.random() < prof.get("p_np_return", 0.0) and plan.get("objective_form") in ("closure", "lambda"):
+        plan["return_type"] = "np.float64"
+    if r3.random() < prof.get("p_np_ints", 0.0):
+        plan["np_ints"] = True  # population sizes, generations, limits given as numpy.int64
+    if plan.get("bounds_int"):
+        pass
+    elif r3.random() < prof.get("p_bounds_form", 0.0):
+        plan["bounds_form"] = r3.choice(["readonly_view", "fortran"])
     return plan
 
 
